@@ -31,8 +31,7 @@
    Abstractions: keys, peers, contents are identifiers; a record's content carries whether it is
    valid for the key it is stored under (signatures / content address are C04, C06, C07);
    [H] maps a stored content to the identifier of the content hash used in its record-type tag;
-   [D p k] is the distance between node p and key k (any function). Candidate lists are data
-   (how they are computed is C11). *)
+   [D p k] is the distance between node p and key k (any function). *)
 From Coq Require Import List NArith Bool.
 From V Require Import gen.Consts.
 Import ListNotations.
@@ -79,8 +78,9 @@ Definition content_eqb (a b : content) : bool :=
   | _, _ => false
   end.
 
-(* K_VALUE, re-read from the source of the pinned libp2p-kad *)
+(* K_VALUE, re-read from the source of the pinned libp2p-kad; CLOSE_GROUP_SIZE from ant-protocol *)
 Definition KVAL : N := Consts.repl_k_value.
+Definition CGS : N := Consts.repl_close_group_size.
 
 (* the routing table sorted by distance to the node (insertion sort) *)
 Fixpoint insert_by_dist (x : peer * N) (l : list (peer * N)) : list (peer * N) :=
@@ -105,7 +105,6 @@ Record node := mkNode {
   self : peer;
   held : list (key * content);          (* the store index with what `get` returns *)
   table : list (peer * N);              (* routing table: every peer with its XOR distance to self *)
-  cands : list peer;                    (* get_replicate_candidates(self) *)
   inflight : list (key * rtype);        (* on_going_fetches keys *)
   store_range : option N;               (* NodeRecordStore::responsible_distance_range *)
   fetch_range : option N                (* ReplicationFetcher::distance_range *)
@@ -127,18 +126,28 @@ Fixpoint update (k : key) (c : content) (l : list (key * content)) : list (key *
   | (k', c') :: r => if k =? k' then (k, c) :: r else (k', c') :: update k c r
   end.
 
+(* get_replicate_candidates(self): the table peers by distance; those within the STORE's responsible range
+   (get_peers_in_range: distance <= range) when there are at least CLOSE_GROUP_SIZE of them, else the
+   CLOSE_GROUP_SIZE nearest *)
+Definition cands (n : node) : list peer :=
+  let sorted := sort_by_dist (table n) in
+  let fallback := map fst (firstn (N.to_nat CGS) sorted) in
+  match store_range n with
+  | Some r => let inr := filter (fun y : peer * N => snd y <=? r) sorted in
+              if Nat.leb (N.to_nat CGS) (length inr) then map fst inr else fallback
+  | None => fallback
+  end.
+
 Definition set_held (n : node) (h : list (key * content)) : node :=
-  mkNode (self n) h (table n) (cands n) (inflight n) (store_range n) (fetch_range n).
+  mkNode (self n) h (table n) (inflight n) (store_range n) (fetch_range n).
 Definition set_inflight (n : node) (f : list (key * rtype)) : node :=
-  mkNode (self n) (held n) (table n) (cands n) f (store_range n) (fetch_range n).
+  mkNode (self n) (held n) (table n) f (store_range n) (fetch_range n).
 Definition set_table (n : node) (t : list (peer * N)) : node :=
-  mkNode (self n) (held n) t (cands n) (inflight n) (store_range n) (fetch_range n).
-Definition set_cands (n : node) (l : list peer) : node :=
-  mkNode (self n) (held n) (table n) l (inflight n) (store_range n) (fetch_range n).
+  mkNode (self n) (held n) t (inflight n) (store_range n) (fetch_range n).
 Definition set_store_range (n : node) (r : option N) : node :=
-  mkNode (self n) (held n) (table n) (cands n) (inflight n) r (fetch_range n).
+  mkNode (self n) (held n) (table n) (inflight n) r (fetch_range n).
 Definition set_fetch_range (n : node) (r : option N) : node :=
-  mkNode (self n) (held n) (table n) (cands n) (inflight n) (store_range n) r.
+  mkNode (self n) (held n) (table n) (inflight n) (store_range n) r.
 
 (* cmd.rs, end of PutLocalRecord: `if let Some(distance) = store.get_farthest_replication_distance()
    { replication_fetcher.set_replication_distance_range(distance) }` -- an assignment *)
@@ -310,7 +319,6 @@ Inductive op :=
 | ODeliver (m : msg)                                       (* an undelivered message is delivered *)
 | ODrop (m : msg)                                          (* ... is lost *)
 | OSetTable (p : peer) (l : list (peer * N))               (* the routing table of p changed *)
-| OSetCands (p : peer) (l : list peer)                     (* ... hence its replication candidates *)
 | OSetRange (p : peer) (r : N).                            (* the record store's range of p is set *)
 
 Definition step (s : sys) (o : op) : sys :=
@@ -331,11 +339,6 @@ Definition step (s : sys) (o : op) : sys :=
   | OSetTable p l =>
       match get_node p (nodes s) with
       | Some n => mkSys (put_node (set_table n l) (nodes s)) (pool s)
-      | None => s
-      end
-  | OSetCands p l =>
-      match get_node p (nodes s) with
-      | Some n => mkSys (put_node (set_cands n l) (nodes s)) (pool s)
       | None => s
       end
   | OSetRange p r =>
